@@ -63,6 +63,8 @@ def runCase (a : CaseIn) : IO Unit := do
   let m : LinMod := { xxo := a.xxo, pats := a.pats.toList, rst := a.rst, spd := a.spd, bpm := a.bpm,
                       marker := a.marker }
   let sc := scanSequences m
+  -- the module class of C18_scan_eq_play (its only hypotheses are `ModWF m` and `sc.ok`)
+  IO.println s!"modwf {modWFb m}"
   if !sc.ok then
     IO.println "scan fail"
     IO.println "endcase"
@@ -75,6 +77,7 @@ def runCase (a : CaseIn) : IO Unit := do
     if oi.time ≥ 0 then
       infoLine := infoLine ++ s!" {i}:{oi.time}:{us oi.timeX}:{oi.speed}:{oi.bpm}"
   IO.println infoLine
+  let pres := seqPres m
   let mut k := 0
   for r in sc.seqs do
     IO.println s!"seq {k} ep {r.ep} dur {r.res.ret} durx {us r.res.durX} end {r.res.endOrd} {r.res.endRow} {r.res.num} scanrows {r.res.trace.length} fuelout {r.res.fuelOut}"
@@ -96,6 +99,15 @@ def runCase (a : CaseIn) : IO Unit := do
     let scanT := r.res.trace.map fun x => (x.ord, x.row)
     let playT := rowTrace fs
     IO.println s!"tracesagree {decide (scanT = playT)}"
+    -- full row records (position, speed, tempo, delay, exact start time): conclusion of C18_scan_eq_play_seq
+    IO.println s!"recsagree {decide (rowRecs fs = r.res.trace)}"
+    -- the decidable hypotheses of C18_scan_eq_play_seq for this sequence, and that the recorded
+    -- pre-state reproduces this sequence's scan
+    let (pep, pctl, pinfo) := pres.getD k (0, [], [])
+    let r2 := scanModule m pep k pctl pinfo
+    let same := pep == r.ep && r2.ret == r.res.ret && r2.endOrd == r.res.endOrd && r2.endRow == r.res.endRow &&
+                r2.num == r.res.num && decide (r2.trace = r.res.trace) && r2.durX == r.res.durX
+    IO.println s!"seqhyp {seqHypB e pep k pctl pinfo} pre {same && pres.length == sc.seqs.length}"
     let mut h : UInt64 := 0xcbf29ce484222325
     let mut idx := 0
     for g in rows do
